@@ -309,7 +309,11 @@ class PureEval:
                 return env[node.id]
             target = self.resolve(node.id)
             if target is not None:
-                return lambda *a: self.call(target, *a)
+                # one callable per function: `f is g` on two references of the same function holds
+                fc = self.__dict__.setdefault("_fncache", {})
+                if id(target) not in fc:
+                    fc[id(target)] = (lambda *a, _t=target: self.call(_t, *a))
+                return fc[id(target)]
             if node.id in self.lib:
                 return self.lib[node.id]
             if node.id in ("True", "False", "None"):
@@ -339,7 +343,7 @@ class PureEval:
                     if all(self.ev(c, e2) for c in g.ifs):
                         rec(gi + 1, e2)
             rec(0, dict(env))
-            return set(out) if isinstance(node, ast.SetComp) else tuple(out)
+            return set(out) if isinstance(node, ast.SetComp) else (list(out) if isinstance(node, ast.ListComp) else tuple(out))
         if isinstance(node, ast.Attribute):
             base = self.ev(node.value, env)
             if node.attr in ("real", "imag") and isinstance(base, (complex, float, int)):
@@ -358,6 +362,8 @@ class PureEval:
             return node.value
         if isinstance(node, ast.Tuple):
             return tuple(self.ev(e, env) for e in node.elts)
+        if isinstance(node, ast.List) and not any(isinstance(e, ast.Starred) for e in node.elts):
+            return [self.ev(e, env) for e in node.elts]
         if isinstance(node, ast.Compare):
             left = self.ev(node.left, env)
             for o, c in zip(node.ops, node.comparators):
